@@ -7,7 +7,7 @@ the printer's precedence table and of the parser's level order is exercised on t
 Oracle (model-free): parse(format(m)) has no syntax errors and the same location/comment-free tree as
 parse(m), for generated expressions, generated modules, the repo's own .sam files and operator-swap
 mutants of them, at several line widths."""
-import json, os, re, glob
+import json, os, re, glob, shutil, subprocess
 from . import common
 from .common import hexs
 
@@ -973,6 +973,8 @@ def run(ctx):
         items.append((f"generated#{k}", g.pick(WIDTHS), gen_module(g, steer=not g.chance(1, 8))))
     for i in range(0, len(items), 500):
         r.module_batch(items[i:i + 500], f"modules seed={ctx.seed}")
+    # 4b. the command-line formatter on a scratch project
+    cli_stats = cli_leg(ctx, r, rng.fork())
     # 5. one dedicated probe per open finding
     for fid, (op, src) in PROBES.items():
         f = r.open_ids.get(fid)
@@ -1008,7 +1010,7 @@ def run(ctx):
                                    "format_preserves_meaning / eval_regroup (every expression, every interpretation: same value/trap and event order)",
                                    "roundtrip_str (every lexed string literal)", "roundtrip_pattern (every pattern)", "paren_insensitive", "parseFuel_stable",
                                    "roundtrip_expr_in_context", "former_witnesses_roundtrip", "member_name_before_lt"],
-        "composed_with_C09": composed,
+        "composed_with_C09": composed, "cli_leg": cli_stats,
         "legacy": "Model/Fmt.lean (round-2 fragment with opaque call arguments / if / match; theorems roundtrip_expr_partial, paren_insensitive used by C09b / C13b) is executed next to the full model on every line in its fragment (stats legacy_model_*)",
         "pending": ["still opaque: identifiers/literals, member names with their explicit type arguments, the type annotation of a `let`, lambda parameter lists; patterns are modelled separately (Model/FmtPat.lean, roundtrip_pattern) and enter the expression model as one unit",
                     "`else if` chains, if-let guards, declarations, types, comments (reparse oracle only)",
@@ -1019,6 +1021,112 @@ def run(ctx):
         "hand-written models Model/FmtFull.lean (printer arms literal/id, tuple, block with let / expression statements and optional final expression, FieldAccess/MethodAccess/Call chains with argument lists, Unary, Binary incl. ends_with_member_name, IfElse with block branches, Match with cases, Lambda; parser parse_expression/parse_match/parse_if_else, parse_disjunction..parse_factor, parse_unary_expression, parse_function_call_or_field_access incl. the `<`-after-member-name rule and argument lists, parse_base_expression with nested-expression unwrapping, tuples, blocks and lambdas, parse_block / parse_statement), Model/FmtPat.lean (matching_pattern_to_document vs pattern_parser), Model/FmtEval.lean (evaluation semantics) and Model/Fmt.lean (tables; lex_str_lit_opt, unescape_quotes, process_raw_token)",
         "driver-side character lexer and token grouping of the fragment (Driver/C08.lean lexWords/group: member names with optional `<T>`, match patterns `U(v) ->`, `U ->`, `_ ->`, lambda parameter lists as single units) and the tree dump of harness/src/bin/c08.rs (erases locations, comments, resolved module references, field/tag orders; imports normalised by merge+sort)",
         "not modelled (reparse oracle only): declarations, types, else-if chains, if-let, comments"])
+
+
+CLI_TARGET = os.path.join(common.HARNESS, "target", "cli")
+
+
+def build_cli():
+    """samlang-cli from /repo's working tree, into /verif/harness/target/cli"""
+    with common.Lock("cargo"):
+        rc, out = common.sh(["cargo", "build", "-p", "samlang-cli", "--offline", "--target-dir", CLI_TARGET],
+                            cwd=common.REPO, timeout=1800)
+    exe = os.path.join(CLI_TARGET, "debug", "samlang-cli")
+    return (exe if rc == 0 and os.path.exists(exe) else None), out[-3000:]
+
+
+def tree_of(root):
+    out = {}
+    for d, _, fs in os.walk(root):
+        for f in fs:
+            p = os.path.join(d, f)
+            out[os.path.relpath(p, root)] = open(p, "rb").read()
+    return out
+
+
+def cli_leg(ctx, r, rng):
+    """`samlang format` / `samlang format --check` (crates/samlang-cli/src/main.rs runners::format) on a
+    scratch project: exit codes, written text == in-process pretty_print_source_module(.., 100, ..), no
+    file appears or disappears, unparseable files untouched, `--check` on the formatted project is clean."""
+    exe, log = build_cli()
+    st = {"files": 0, "runs": 0}
+    if exe is None:
+        r.violation("samlang-cli no longer builds; the CLI leg of C08 cannot run", {"broken": "cargo build -p samlang-cli", "log": log},
+                    ("cli-build",), no_input=True)
+        return st
+    files = {}
+    names = ["Main", "Util", "a/Deep", "a/b/Deeper", "Other", "X1", "X2", "X3", "Formatted", "Broken"]
+    for nm in names[:8]:
+        files[f"src/{nm}.sam"] = gen_module(rng.fork(), steer=True)
+    lines = [f"F {hexs(t)}" for t in files.values()]
+    _, outs, _ = common.run_exec(common.harness_bin("C08"), [], lines)
+    expected = {}
+    for (k, t), o in zip(list(files.items()), outs):
+        expected[k] = None if o == "perr" or not o else common.unhex(o).decode()
+    some = next((v for v in expected.values() if v), "class Main {}\n")
+    files["src/Formatted.sam"] = some
+    expected["src/Formatted.sam"] = some
+    files["src/Broken.sam"] = "class Broken { function f(): int = (1 + }"
+    expected["src/Broken.sam"] = None
+    files["sconfig.json"] = '{"sourceDirectory": "src"}'
+    st["files"] = len(files) - 1
+    base = os.path.join(common.SCRATCH_ROOT, f"c08-cli-{os.getpid()}")
+    shutil.rmtree(base, ignore_errors=True)
+    try:
+        projs = {}
+        for tag in ("A", "B"):
+            root = os.path.join(base, tag)
+            for k, t in files.items():
+                os.makedirs(os.path.dirname(os.path.join(root, k)), exist_ok=True)
+                open(os.path.join(root, k), "w").write(t)
+            projs[tag] = root
+
+        def run(root, args):
+            st["runs"] += 1
+            p = subprocess.run([exe, "format"] + args, cwd=root, stdout=subprocess.PIPE, stderr=subprocess.PIPE, timeout=300)
+            return p.returncode, p.stderr.decode("utf-8", "replace")
+
+        def bad(what, root, extra):
+            payload = {"protocol": "cli-format", "files": files, "project": root}
+            payload.update(extra)
+            r.violation("samlang format (CLI): " + what, payload, ("cli", what[:60]))
+
+        # A: format
+        before = tree_of(projs["A"])
+        rc, err = run(projs["A"], [])
+        after = tree_of(projs["A"])
+        if rc != 0:
+            bad(f"`samlang format` exited with {rc}: {err.strip()[-300:]}", projs["A"], {"rc": rc, "stderr": err[-2000:]})
+        if set(after) != set(before):
+            bad(f"`samlang format` created or removed files: {sorted(set(after) ^ set(before))}", projs["A"], {})
+        for k, exp in expected.items():
+            got = after.get(k, b"").decode("utf-8", "replace")
+            want = exp if exp is not None else files[k]
+            if rc == 0 and got != want:
+                bad(f"`samlang format` wrote {k} differently from pretty_print_source_module(.., 100, ..)" if exp is not None
+                    else f"`samlang format` modified the unparseable file {k}", projs["A"], {"file": k, "got": got, "want": want})
+        # A again: --check on the formatted project must be clean (and change nothing)
+        rc2, err2 = run(projs["A"], ["--check"])
+        if rc == 0 and (rc2 != 0 or "Changed:" in err2):
+            bad(f"`samlang format --check` on the freshly formatted project exits with {rc2}: {err2.strip()[-300:]}", projs["A"], {"rc": rc2, "stderr": err2[-2000:]})
+        if rc == 0 and tree_of(projs["A"]) != after:
+            bad("`samlang format --check` changed the formatted project", projs["A"], {})
+        # B: --check on the unformatted project
+        changed = sorted(k for k, exp in expected.items() if exp is not None and exp != files[k])
+        before = tree_of(projs["B"])
+        rc3, err3 = run(projs["B"], ["--check"])
+        want_rc = 1 if changed else 0
+        if rc3 != want_rc:
+            bad(f"`samlang format --check` exited with {rc3}, expected {want_rc} ({len(changed)} files need formatting): {err3.strip()[-300:]}",
+                projs["B"], {"rc": rc3, "stderr": err3[-2000:]})
+        reported = sorted(os.path.relpath(l.split("Changed: ", 1)[1].strip(), ".") for l in err3.splitlines() if l.startswith("Changed: "))
+        if rc3 in (0, 1) and reported != changed:
+            bad(f"`samlang format --check` reports {reported}, expected {changed}", projs["B"], {"stderr": err3[-2000:]})
+        if set(tree_of(projs["B"])) != set(before):
+            bad("`samlang format --check` created or removed files", projs["B"], {})
+    finally:
+        shutil.rmtree(base, ignore_errors=True)
+    return st
 
 
 def replay(ctx, path):
